@@ -36,7 +36,8 @@ contract("BloomFilter.check_alt", contexts=["BloomFilter"], properties=["C01", "
 
 
 # ---- sizing and construction (C07; needed by union/intersection and the loaders) ---------------------
-contract("BloomFilter._get_optimized_params", kind="classmethod", contexts=["BloomFilter"],
+contract("BloomFilter._get_optimized_params", kind="classmethod",
+         contexts=["BloomFilter", "BloomFilterOnDisk", "CountingBloomFilter"],
          properties=["C07", "C01", "C12", "C13"],
          params={"estimated_elements": "int", "false_positive_rate": "float"}, returns="tuple[float,int,int]",
          requires=[("rate_representable", "false_positive_rate < 0.0 or f32(false_positive_rate) > 0.0")],
@@ -107,8 +108,7 @@ contract("BloomFilter.clear", contexts=["BloomFilter"], properties=["C19", "C01"
 contract("BloomFilter.hashes", contexts=["BloomFilter"], properties=["C01", "C19", "C13"],
          params={"key": "key", "depth": "opt[int]"}, returns="list[int]",
          modifies=[],
-         ensures=[("strategy_applied", "result == strategy(self._hash_func, key, "
-                                       "depth if depth is not None else self._number_hashes)")])
+         result_is="strategy(self._hash_func, key, depth if depth is not None else self._number_hashes)")
 
 contract("BloomFilter.add", contexts=["BloomFilter"], properties=["C01", "C14"],
          params={"key": "key"},
@@ -196,6 +196,8 @@ classinfo("BloomFilterOnDisk", "probables.blooms.bloom",
 from pyvc.api import CONTRACTS  # noqa: E402
 CONTRACTS["BloomFilter._get_element"].contexts.append("BloomFilterOnDisk")
 CONTRACTS["BloomFilter.check_alt"].contexts.append("BloomFilterOnDisk")
+CONTRACTS["BloomFilter.check"].contexts.append("BloomFilterOnDisk")
+CONTRACTS["BloomFilter.__contains__"].contexts.append("BloomFilterOnDisk")
 CONTRACTS["BloomFilter.hashes"].contexts.append("BloomFilterOnDisk")
 CONTRACTS["BloomFilter._verify_bloom_similarity"].contexts.append("BloomFilterOnDisk")
 CONTRACTS["BloomFilter._cnt_number_bits_set"].contexts.append("BloomFilterOnDisk")
